@@ -20,14 +20,17 @@ type uDef struct {
 	Disc     bool              `json:"discriminator"`
 	Fixed    bool              `json:"fixed_properties"`
 	Addl     bool              `json:"additional_properties"`
+	AddlInt  bool              `json:"additional_properties_integer"`
 	DiscProp string            `json:"discriminator_is_fixed_property"` // "" | required | optional
 	Pkg      string            `json:"pkg"`
 }
 
 var uMembers = map[string]map[string]any{
-	"Cat":  {"type": "object", "required": []string{"petType"}, "properties": map[string]any{"petType": map[string]any{"type": "string"}, "lives": map[string]any{"type": "integer"}, "name": map[string]any{"type": "string"}}},
-	"Dog":  {"type": "object", "required": []string{"petType"}, "properties": map[string]any{"petType": map[string]any{"type": "string"}, "bark": map[string]any{"type": "boolean"}, "name": map[string]any{"type": "string"}}},
-	"Bird": {"type": "object", "required": []string{"petType"}, "properties": map[string]any{"petType": map[string]any{"type": "string"}, "wings": map[string]any{"type": "integer"}}},
+	"Cat":    {"type": "object", "required": []string{"petType"}, "properties": map[string]any{"petType": map[string]any{"type": "string"}, "lives": map[string]any{"type": "integer"}, "name": map[string]any{"type": "string"}}},
+	"Dog":    {"type": "object", "required": []string{"petType"}, "properties": map[string]any{"petType": map[string]any{"type": "string"}, "bark": map[string]any{"type": "boolean"}, "name": map[string]any{"type": "string"}}},
+	"Circle": {"type": "object", "properties": map[string]any{"r": map[string]any{"type": "integer"}}},
+	"Rect":   {"type": "object", "properties": map[string]any{"w": map[string]any{"type": "integer"}, "h": map[string]any{"type": "integer"}}},
+	"Bird":   {"type": "object", "required": []string{"petType"}, "properties": map[string]any{"petType": map[string]any{"type": "string"}, "wings": map[string]any{"type": "integer"}}},
 }
 
 func (u uDef) schema() map[string]any {
@@ -62,6 +65,10 @@ func (u uDef) schema() map[string]any {
 		s["type"] = "object"
 		s["additionalProperties"] = true
 	}
+	if u.AddlInt {
+		s["type"] = "object"
+		s["additionalProperties"] = map[string]any{"type": "integer"}
+	}
 	return s
 }
 
@@ -85,6 +92,12 @@ func (u uDef) effMapping() map[string]string {
 }
 
 func genMember(rng *rand.Rand, m string) map[string]any {
+	switch m {
+	case "Circle":
+		return map[string]any{"r": rng.Intn(50)}
+	case "Rect":
+		return map[string]any{"w": rng.Intn(50), "h": rng.Intn(50)}
+	}
 	v := map[string]any{"petType": "original"}
 	if rng.Intn(2) == 0 {
 		v["name"] = mStrings[rng.Intn(len(mStrings))]
@@ -128,6 +141,8 @@ func runC09(r *Report, rng *rand.Rand, thorough bool) {
 		{Name: "UPartial", Key: "oneOf", Members: []string{"Cat", "Dog"}, Disc: true, Mapping: map[string]string{"cat": "Cat"}},
 		{Name: "UFixed", Key: "oneOf", Members: []string{"Cat", "Dog"}, Disc: true, Mapping: map[string]string{"cat": "Cat", "dog": "Dog"}, Fixed: true},
 		{Name: "UFixedAddl", Key: "oneOf", Members: []string{"Cat", "Dog"}, Fixed: true, Addl: true},
+		{Name: "UFixedAddlInt", Key: "oneOf", Members: []string{"Circle", "Rect"}, Fixed: true, AddlInt: true},
+		{Name: "UAddlInt", Key: "anyOf", Members: []string{"Circle", "Rect"}, AddlInt: true},
 	}
 	unions = append(unions,
 		uDef{Name: "UDiscReq", Pkg: "c09_dreq", Key: "oneOf", Members: []string{"Cat", "Dog"}, Disc: true, Mapping: map[string]string{"cat": "Cat", "dog": "Dog"}, DiscProp: "required"},
@@ -253,6 +268,14 @@ func runC09(r *Report, rng *rand.Rand, thorough bool) {
 			if u.Fixed {
 				init["meta"] = "fixed-value"
 			}
+			if u.AddlInt {
+				init["extra"] = 7
+				init["extra2"] = 8
+			}
+			if u.Fixed {
+				// change a fixed property after decoding: the new value must be the one marshalled
+				add(fmt.Sprintf("%s/modify/%s", u.Name, m), u, init, []map[string]any{{"method": "set:Meta", "arg": "changed"}, {"method": "MarshalJSON"}}, meta{kind: "modify", i: i, init: init})
+			}
 			if u.Addl {
 				init["extra"] = "more"
 				init["extra2"] = []any{1, 2, 3}
@@ -340,6 +363,16 @@ func runC09(r *Report, rng *rand.Rand, thorough bool) {
 		case "lossless":
 			if outs[0].Error != "" || !jsonEqual(outs[0].Value, json.RawMessage(canon(m.init))) {
 				r.Violate("unmarshal_marshal_lossy", fmt.Sprintf("%s: %s -> %s %s", m.u.Name, canon(m.init), string(outs[0].Value), outs[0].Error), replay)
+			}
+		case "modify":
+			want := map[string]any{}
+			for k, v := range m.init {
+				want[k] = v
+			}
+			want["meta"] = "changed"
+			last := outs[len(outs)-1]
+			if last.Error != "" || !jsonEqual(last.Value, json.RawMessage(canon(want))) {
+				r.Violate("fixed_property_changed_after_unmarshal_not_marshalled", fmt.Sprintf("%s: decoded %s, set meta = changed, marshalled %s %s", m.u.Name, canon(m.init), string(last.Value), last.Error), replay)
 			}
 		case "dispatch":
 			want, ok := mappedTo(m.discValue)
@@ -434,7 +467,7 @@ func runC09(r *Report, rng *rand.Rand, thorough bool) {
 				r.Sample(map[string]any{"union": m.u, "from": m.member, "merge": m.m2, "marshalled": marshalled})
 			}
 			// ---- model case
-			if !m.u.Fixed && !m.u.Addl && m.u.DiscProp == "" {
+			if !m.u.Fixed && !m.u.Addl && !m.u.AddlInt && m.u.DiscProp == "" {
 				dterm := "None"
 				if m.u.Disc {
 					var ks []string
